@@ -161,17 +161,8 @@ func ruleFreshBitmasks(p *Prog, r *Res, rule string, pkgs []string, floor int) {
 				continue
 			}
 			info := f.Pkg.TypesInfo
-			var parents []ast.Node
-			ast.Inspect(f.Body(), func(n ast.Node) bool {
-				if n == nil {
-					parents = parents[:len(parents)-1]
-					return false
-				}
-				if _, isLit := n.(*ast.FuncLit); isLit && n != ast.Node(f.Lit) {
-					parents = append(parents, n)
-					return false
-				}
-				if se, ok := n.(*ast.SelectorExpr); ok && info.Uses[se.Sel] == types.Object(fv) {
+			inspectParents(f.Body(), func(n ast.Node, parents []ast.Node) bool {
+				if se, ok := n.(*ast.SelectorExpr); ok && info.Uses[se.Sel] == types.Object(fv) && len(parents) > 0 {
 					par := parents[len(parents)-1]
 					okUse, why := false, ""
 					switch pn := par.(type) {
@@ -200,7 +191,6 @@ func ruleFreshBitmasks(p *Prog, r *Res, rule string, pkgs []string, floor int) {
 						r.Bad(rule+" accumulators", key, p.Pos(se), "the accumulator is copied/stored/passed where it could be retained; it is mutated in place on the service goroutine, so any alias would change under its holder")
 					}
 				}
-				parents = append(parents, n)
 				return true
 			})
 		}
@@ -218,13 +208,8 @@ func paramsNotRetained(p *Prog, fn *Fn) bool {
 			if obj == nil || !isBitmaskNamed(obj.Type()) {
 				continue
 			}
-			var parents []ast.Node
-			ast.Inspect(fn.Body(), func(n ast.Node) bool {
-				if n == nil {
-					parents = parents[:len(parents)-1]
-					return false
-				}
-				if u, isID := n.(*ast.Ident); isID && info.ObjectOf(u) == obj {
+			inspectParents(fn.Body(), func(n ast.Node, parents []ast.Node) bool {
+				if u, isID := n.(*ast.Ident); isID && info.ObjectOf(u) == obj && len(parents) > 0 {
 					switch pn := parents[len(parents)-1].(type) {
 					case *ast.CallExpr:
 						cf := p.Callee(fn.Pkg, pn)
@@ -239,7 +224,6 @@ func paramsNotRetained(p *Prog, fn *Fn) bool {
 						ok = false
 					}
 				}
-				parents = append(parents, n)
 				return true
 			})
 		}
